@@ -728,13 +728,30 @@ func (e *Exec) sprintf(format string, args []Value) *fmtRecord {
 		if i >= len(format) {
 			break
 		}
+		// flags and width
+		flagged := false
+		for i < len(format) && strings.IndexByte("#+- 0123456789.", format[i]) >= 0 {
+			flagged = true
+			i++
+		}
+		if i >= len(format) {
+			break
+		}
 		verb := format[i]
 		if verb == '%' {
 			lit = append(lit, '%')
 			continue
 		}
-		if strings.IndexByte("sdvqwx", verb) < 0 {
-			panic(e.unsupported("fmt verb %" + string(verb)))
+		if flagged || strings.IndexByte("sdvqwx", verb) < 0 {
+			// formatting not modelled: an opaque piece that records its argument
+			flush()
+			if ai < len(args) {
+				a := args[ai]
+				ai++
+				pieces = append(pieces, e.opaqueString("fmt_opaque", 40, &fmtRecord{format: "%" + string(verb), args: []Value{a}}))
+			}
+			rec.exact = false
+			continue
 		}
 		flush()
 		if ai >= len(args) {
